@@ -16,9 +16,10 @@
 (* T1 (checked by TLC over the whole enumerated space, see LinearTrace):   *)
 (*   An(.., "bounds") satisfies Linear!Sound everywhere;                   *)
 (*   An(.., "literal") does not (shortest witness x / q with q < 0).       *)
-(* The model ignores Simplifier rewrites other than folding closed terms   *)
-(* (x * 0 -> 0, reordering): they do not matter for T1, and the judge      *)
-(* only COUNTS how often the model and the real answer differ.             *)
+(* Of the Simplifier the model has: folding of closed terms, static        *)
+(* fluents replaced by their value, 0 * e -> 0.  Other rewrites do not     *)
+(* matter for T1, and the judge only COUNTS how often the as-written model *)
+(* and the real answer differ (is_linear flag; the two sets when linear).  *)
 (***************************************************************************)
 EXTENDS Linear
 
@@ -63,6 +64,10 @@ ClosedS(P, e) == \/ e.op = "const"
 LitVal(P, e) == Eval(Ctx(P), e, [i \in DOMAIN P.fluents |-> InitOf(P, i)], <<>>)
 NegLiteral(P, e) == ClosedS(P, e) /\ LET v == LitVal(P, e) IN ~IsU(v) /\ v.n < 0
 
+ZeroLiteral(P, e) == ClosedS(P, e) /\ LET v == LitVal(P, e) IN ~IsU(v) /\ v.n = 0
+RECURSIVE ZeroTerm(_, _)
+ZeroTerm(P, e) == ZeroLiteral(P, e) \/ (e.op = "times" /\ \E i \in DOMAIN e.args : ZeroTerm(P, e.args[i]))
+
 \* ---------- the input feature the known defect depends on (named in violation signatures) ----------
 RECURSIVE SubExprs(_)
 SubExprs(e) == {e} \cup UNION {SubExprs(e.args[i]) : i \in DOMAIN e.args}
@@ -93,6 +98,7 @@ An(P, scope, e, mode) ==
      [] e.op = "fluent" -> IF IsStatic(P, FlIdx(P, e.name)) THEN Lin({}, {}) ELSE Lin({e.name}, {})
      [] e.op = "plus"  -> IF allLin THEN Lin(up, un) ELSE NotLin
      [] e.op = "minus" -> IF allLin THEN Lin(rs[1].pos \cup rs[2].neg, rs[1].neg \cup rs[2].pos) ELSE NotLin
+     [] e.op = "times" /\ ZeroTerm(P, e) -> Lin({}, {})   \* Simplifier: 0 * e -> 0
      [] e.op = "times" ->
            LET withFl == {i \in DOMAIN rs : ~NoFl(rs[i])}
                sg == {SignOf(Bounds(P, scope, e.args[i])) : i \in DOMAIN rs \ withFl}
